@@ -156,6 +156,12 @@ pub fn run(ctx: &Ctx) -> i32 {
         }
     });
     // ---- leaf order and sub-batches within one epoch
+    // ---- the VRF key storage answers batch derivations in another order than asked
+    par_cases(ctx, &mon, "vrforder", ctx.tier.pick(48, 400), |cc, rng, l| {
+        let case = HistCase::random(rng, ctx.tier.pick(8, 14), 8, 6, cc.idx % 5 == 0);
+        let sseed = rng.next_u64();
+        with_cfg!(case.cfg, TC, { block_on(vrf_order_case::<TC>(cc, &case, sseed, l)) })
+    });
     par_cases(ctx, &mon, "order", ctx.tier.pick(64, 300), |cc, rng, l| {
         let cfg = if rng.chance(1, 2) { Cfg::Wa } else { Cfg::Exp };
         with_cfg!(cfg, TC, { block_on(order_case::<TC>(ctx, cc, rng, l)) });
@@ -328,5 +334,68 @@ async fn order_case<TC: Configuration>(ctx: &Ctx, cc: &CaseCtx, rng: &mut Rng, l
     l.case(format!("order/{n0}/{n1}").as_bytes(), true);
     if cc.idx < 1 {
         l.sample(json!({"case": cc.id, "family": "order", "old_leaves": n0, "new_leaves": n1, "variants": variants}));
+    }
+}
+
+/// Same history through a directory with the stock key storage and through one whose key storage
+/// returns the (correct) node labels of a batch in another order: epoch hashes must be equal after
+/// every publish, and every lookup / complete history of the second directory must verify to the model.
+async fn vrf_order_case<TC: Configuration>(cc: &CaseCtx, case: &HistCase, sseed: u64, l: &mut Local) {
+    use crate::xdb::XDb;
+    let Ok(mut w) = World::<TC>::new(CacheOpt::None, AzksParallelismConfig::disabled(), KeyVrf::hard_coded()).await else {
+        l.inconclusive("Directory::new failed");
+        return;
+    };
+    let db2 = XDb::new();
+    let mgr2 = case.cache.manager(db2.clone());
+    let Ok(dir2) = Directory::<TC, XDb, ShufVrf>::new(mgr2, ShufVrf(KeyVrf::hard_coded(), sseed), case.par).await else {
+        l.inconclusive("Directory::new (shuffling key storage) failed");
+        return;
+    };
+    let hist = history_json(&case.hist.batches);
+    for (bi, batch) in case.hist.batches.iter().enumerate() {
+        let (_a, r1) = w.publish(batch).await;
+        let r2 = dir2.publish(akd_batch(batch)).await;
+        l.eval(1);
+        let detail = json!({"cfg": case.cfg.name(), "cache": case.cache.name(), "par": par_name(&case.par), "order_seed": sseed, "batch_index": bi, "history": hist});
+        match (&r1, &r2) {
+            (Ok(a), Ok(b)) if a == b => l.count("vrf_order_epochs_compared", 1),
+            (Err(_), Err(_)) => l.count("vrf_order_both_refused", 1),
+            (a, b) => {
+                l.violation(
+                    "C14:vrf-answer-order/publish-differs",
+                    format!("publish #{bi} returns {:?} with the stock key storage but {:?} when the key storage answers the batch in another order", a.as_ref().map(|e| (e.0, hex::encode(e.1))).map_err(|e| e.to_string()), b.as_ref().map(|e| (e.0, hex::encode(e.1))).map_err(|e| e.to_string())),
+                    detail,
+                );
+                return;
+            }
+        }
+        if batch.len() >= 2 {
+            l.case(format!("vrforder/{}/{}", sseed % 3, batch.len().min(6)).as_bytes(), true);
+        }
+    }
+    let epoch = w.model.epoch;
+    if epoch == 0 {
+        return;
+    }
+    let pk = w.pk.clone();
+    for label in w.model.labels() {
+        let want = w.model.latest(&label, epoch).cloned();
+        match dir2.lookup(AkdLabel(label.clone())).await {
+            Ok((p, eh)) => match akd::client::lookup_verify::<TC>(&pk, eh.1, eh.0, AkdLabel(label.clone()), p) {
+                Ok(vr) if want.as_ref().map(|m| ver_matches(m, &vr)).unwrap_or(false) && eh.1 == w.published[epoch as usize] => l.count("vrf_order_lookups_verified", 1),
+                other => {
+                    l.violation("C14:vrf-answer-order/lookup-differs", format!("lookup of {} on the directory with the re-ordering key storage: {:?}, model {:?}", hx(&label), other.map(|v| vr_json(&v)), want.map(|m| ver_json(&m))), json!({"cfg": case.cfg.name(), "order_seed": sseed, "history": hist}));
+                    return;
+                }
+            },
+            Err(e) => {
+                l.violation("C14:vrf-answer-order/lookup-fails", format!("lookup of {} fails on the directory with the re-ordering key storage: {e}", hx(&label)), json!({"cfg": case.cfg.name(), "order_seed": sseed, "history": hist}));
+                return;
+            }
+        }
+    }
+    if cc.idx < 1 {
+        l.sample(json!({"case": cc.id, "family": "vrf answer order", "order_seed": sseed, "epochs": epoch}));
     }
 }
